@@ -225,10 +225,19 @@ Definition model_order (o : opts) (start : N) (kinds : list N) (d : list item) :
               let e := item_effect o start kinds it in
               if N.eqb (e_fc e + e_fp e) 0 then [] else [snd it]) d.
 
+(* Scan with BatchSize <= 0 (printed as 0): an error, nothing requested, nothing
+   processed, 0 returned (after the repair; before it the partition loop never ended) *)
+Definition check_rejected (ob : cobs) : bool :=
+  negb (o_ok ob)
+  && match o_reqs ob with [] => true | _ => false end
+  && match o_cbs ob with [] => true | _ => false end
+  && N.eqb (o_certs ob) 0 && N.eqb (o_ret ob) 0.
+
 Definition check_case (c : case) : bool :=
   let '(i, ob) := c in
   let o := mkOpts (i_po i) (i_ig i) (i_mm i) in
   let r := scan_seq o (i_start i) (i_stop i) (i_batch i) (i_kinds i) (i_script i) in
+  if N.eqb (i_batch i) 0 then check_rejected ob else
   o_ok ob
   && list_eqb (prod_eqb N.eqb (list_eqb N.eqb)) (s_reqs r) (o_reqs ob)
   && list_eqb cb_eqb (model_cbs o (i_start i) (i_kinds i) (s_delivered r)) (o_cbs ob)
